@@ -470,6 +470,13 @@ func init() {
 func runC02(c *Ctx) *Replay {
 	cfg := val.DefaultCfg()
 	cfg.WildDates = true // encoders are compared with each other only
+	bare := c.R.Chance(1, 8)
+	if bare {
+		// unions with NO member set: a value Go code can hold and hand to the encoders (no
+		// decoder accepts what they write, so only C02 can be asked about it)
+		cfg.EmptyUnion = 25
+		c.Count("runs_with_unpopulated_unions", 1)
+	}
 	pk := c.pickRecord(cfg)
 	if pk == nil {
 		c.Count("no_record", 1)
@@ -488,8 +495,9 @@ func runC02(c *Ctx) *Replay {
 			sc.Dirty.Pad = c.R.Range(1, 33)
 		}
 		sc.Writer = writerKinds[c.R.Intn(len(writerKinds))]
-		switch i {
-		case 1, 4:
+		switch {
+		case bare:
+		case i == 1 || i == 4:
 			sc.Extra = map[string]string{"origin": "decoded"}
 			sc.Decoder = []string{"unmarshal", "unmarshal", "decode", "makefrombytes", "make"}[c.R.Intn(5)]
 			if obs := c.N.OldOf[pk.B.Prog.ID]; i == 4 && len(obs) > 0 {
@@ -497,7 +505,7 @@ func runC02(c *Ctx) *Replay {
 					sc.OldPeer, sc.PeerMask = true, ob.Mask
 				}
 			}
-		case 2:
+		case i == 2:
 			if pk.Def.ReadOnly {
 				sc.Extra = map[string]string{"origin": "constructed"}
 			}
@@ -520,7 +528,7 @@ func runC02(c *Ctx) *Replay {
 	}
 	// a HISTORY of encodes: several records, two destinations, writers the caller keeps,
 	// a second caller overtaking at a Write
-	if c.R.Chance(1, 2) {
+	if !bare && c.R.Chance(1, 2) {
 		hs := c.encHistory(pk)
 		viol := execEncHistory(c.N, hs)
 		c.Count("evaluations", 1)
